@@ -147,6 +147,21 @@ def end_to_end(scope, na, nb):
         oc["EDIF.identifier"] = "".join(ch if ch.isalnum() else "_" for ch in na)
         top.add_cable(s.Cable(name=nb), position=0)
         top.cables[0].create_wire()
+    elif scope == "copy-added-after-export":
+        # exported once (identifiers are now recorded), then a copy of each element is renamed and added next to
+        # the original; the copy arrives carrying the original's identifier
+        x0 = top.create_child(name=na, reference=leaf)
+        c0 = top.create_cable(name=na, wires=1)
+        p0 = top.create_port(name=na, direction=s.IN, pins=1)
+        d0 = work.create_definition(name=na)
+        n.top_instance = top
+        n.top_instance.name = "t"
+        with core.quiet():
+            s.compose(n, os.path.join(core.scratch_dir(), "c17_first_%d.edf" % os.getpid()))
+        for orig, add in ((x0, top.add_child), (c0, top.add_cable), (p0, top.add_port), (d0, work.add_definition)):
+            cp = orig.clone()
+            cp.name = nb
+            add(cp)
     elif scope == "cell-first-library":
         # the colliding cells live in a library that is not the last one written
         prim.create_definition(name=na)
@@ -174,7 +189,8 @@ def end_to_end(scope, na, nb):
         both = work.create_definition(name="both")
         both.create_cable(name=na, wires=1)
         both.create_cable(name=nb, wires=1)
-    n.top_instance = top
+    if n.top_instance is None:
+        n.top_instance = top
     n.top_instance.name = na if scope == "top-instance" else "t"
     if scope == "netlist":
         n.name = na
@@ -265,6 +281,12 @@ def cases(tier):
         out.append(("e2e", "instance-readded-under-edif", na, nb, "asc"))
     for na, nb in (("a-b", "a+b"), ("q[0]x", "q(0)x"), ("x.y", "X/Y")):
         out.append(("e2e", "inserted-in-front-under-edif", na, nb, "asc"))
+    for na, nb in (("Core_A", "Core_B"), ("core_a", "core_b"), ("U1", "u1x"), ("a-B", "a-C"), ("A" * 256, "b")):
+        out.append(("e2e", "copy-added-after-export", na, nb, "asc"))
+    # names that begin or end with a blank (an escaped Verilog identifier ends with one)
+    for scope in scopes:
+        for na, nb in (("u ", "u"), ("u", " u"), ("\\b/s ", "b"), (" ", "a"), ("a  b ", "a b")):
+            out.append(("e2e", scope, na, nb, "asc"))
     for nm in e2e_names:
         out.append(("e2e", "top-instance", nm, "b", "asc"))
         out.append(("e2e", "netlist", nm, "b", "asc"))
